@@ -388,6 +388,7 @@ type c02Hist struct {
 	steps          []c02Step
 	mfinal, dfinal []WalkEnt
 	view           []string
+	idx            int
 }
 
 func (h *c02Hist) desc() map[string]interface{} {
@@ -398,7 +399,7 @@ func (h *c02Hist) desc() map[string]interface{} {
 		do.fillJSON()
 		l[i] = map[string]interface{}{"op": s.op, "mem": mo, "disk": do, "pre": s.pre}
 	}
-	return map[string]interface{}{"view": h.view, "history": l}
+	return map[string]interface{}{"index": h.idx, "view": h.view, "history": l}
 }
 
 func (h *c02Hist) coqCase() string {
@@ -485,7 +486,7 @@ func runC02History(o *Out, r *RNG, gen *FsGen, scratch string, idx int, maxLen i
 	must(err)
 	var mfs, dfs filesystem.Filespace = mroot, droot
 	mref, dref := NewRefFS(), NewRefFS()
-	h := &c02Hist{}
+	h := &c02Hist{idx: idx}
 	var base []string
 	failed := false
 	fail := func(oracle, what, sig string) {
@@ -723,7 +724,12 @@ func runC02(o *Out, rng *RNG, tier string, replay string) {
 	scratch, err := os.MkdirTemp("", "verif-c02-")
 	must(err)
 	defer os.RemoveAll(scratch)
+	only := replayIndex(replay)
 	for i := 0; i < n; i++ {
-		runC02History(o, rng.Fork(), gen, scratch, i, 25)
+		r := rng.Fork()
+		if only >= 0 && i != only {
+			continue
+		}
+		runC02History(o, r, gen, scratch, i, 25)
 	}
 }
